@@ -145,6 +145,7 @@ type DocOpts struct {
 	Override           bool   // redefine inherited attributes further down (with decoys above)
 	FontKinds          []string
 	NoEmptyPages       bool
+	FontWidths         bool // simple fonts may carry explicit /Widths (seed-chosen)
 }
 
 // GenResult is a generated logical document plus the oracle's view.
@@ -219,7 +220,13 @@ func GenDoc(r *rand.Rand, o DocOpts) *GenResult {
 	}
 	nf := 1 + r.Intn(max1(o.MaxFonts))
 	for i := 0; i < nf; i++ {
-		g.Fonts = append(g.Fonts, NewGenFont(i+1, kinds[r.Intn(len(kinds))], r))
+		gf := NewGenFont(i+1, kinds[r.Intn(len(kinds))], r)
+		if o.FontWidths && gf.Kind != "type0-identity" && r.Intn(2) == 0 {
+			for c := 32; c <= 255; c++ {
+				gf.Widths = append(gf.Widths, 200+r.Intn(800))
+			}
+		}
+		g.Fonts = append(g.Fonts, gf)
 	}
 	d := &Doc{}
 	for _, f := range g.Fonts {
@@ -367,6 +374,7 @@ func RandomLayout(r *rand.Rand, revs int) Layout {
 		ContentsArrayIndirect: r.Intn(3) == 0,
 		XRefPredictor: r.Intn(2) == 0,
 		GapsAsFree: r.Intn(3) == 0,
+		ObjStmExtends: r.Intn(3) == 0,
 	}
 	switch r.Intn(4) {
 	case 0:
